@@ -54,6 +54,11 @@ def firstGuard (env : Env) : List (List (String × String × String) × String) 
     let b ← evalCond env cond
     if b then pure (some act) else firstGuard env rest
 
+/-- what the function does: the action of the first guard that fires, else its last statement (`return ok`, or — for a source
+that tests the good case first — whatever follows) -/
+def outcome (env : Env) (guards : List (List (String × String × String) × String)) (tail : List String) : Option String :=
+  (firstGuard env guards).map fun r => r.getD (tail.getLastD "")
+
 /-! ### check_resize_validity -/
 
 def envResize (c : Cfg κ) (t : Table κ ν) (auto : Bool) (origHp newHp : Nat) : Env := fun s =>
@@ -69,31 +74,30 @@ def envResize (c : Cfg κ) (t : Table κ ν) (auto : Bool) (origHp newHp : Nat) 
   | _ => none
 
 /-- the outcome of `check_resize_validity` as the model computes it: the policy exceptions by `Table.checkResize`, then the
-`hashpower() != orig_hp` test the callers make (`fastDouble`: `failure_under_expansion`) -/
-def modelResize (c : Cfg κ) (t : Table κ ν) (auto : Bool) (origHp newHp : Nat) : Option String :=
+`hashpower() != orig_hp` test the callers make (`fastDouble`: `failure_under_expansion`), else `ok` -/
+def modelResize (c : Cfg κ) (t : Table κ ν) (auto : Bool) (origHp newHp : Nat) : String :=
   match t.checkResize c auto newHp with
-  | some .maxHpExceeded => some "throw maximum_hashpower_exceeded"
-  | some .loadFactorTooLow => some "throw load_factor_too_low"
-  | some _ => some "?"
-  | none => if t.hp ≠ origHp then some "return failure_under_expansion" else none
+  | some .maxHpExceeded => "throw maximum_hashpower_exceeded"
+  | some .loadFactorTooLow => "throw load_factor_too_low"
+  | some _ => "?"
+  | none => if t.hp ≠ origHp then "return failure_under_expansion" else "return ok"
 
-/-- **the model's resize-validity decision is the interpretation of the source's guard list**, for every table, mode and
-request: same guards, same order, same (strict) comparisons -/
+/-- **the model's resize-validity decision is the interpretation of the source's guards**, for every table, mode and request:
+whatever the shape of the source (nested or conjoined conditions, the failure or the success tested first), it throws
+`maximum_hashpower_exceeded`, throws `load_factor_too_low`, returns `failure_under_expansion` or returns `ok` in exactly the
+cases in which the model does — in particular the load-factor comparison is STRICT and applies to automatic resizes only
+(C15: with a minimum of 0 it can never fire) -/
 theorem checkResize_is_source (c : Cfg κ) (t : Table κ ν) (auto : Bool) (origHp newHp : Nat) :
-    firstGuard (envResize c t auto origHp newHp) checkResizeValidity = some (modelResize c t auto origHp newHp) := by
-  simp only [checkResizeValidity, firstGuard, evalCond, evalAtom, envResize, modelResize, Table.checkResize, Table.lfBelow,
-    bind, Option.bind, pure, Bool.and_true]
+    outcome (envResize c t auto origHp newHp) checkResizeValidity checkResizeValidity_then =
+      some (modelResize c t auto origHp newHp) := by
+  simp only [checkResizeValidity, checkResizeValidity_then, outcome, firstGuard, evalCond, evalAtom, envResize, modelResize,
+    Table.checkResize, Table.lfBelow, bind, Option.bind, pure, Bool.and_true, List.getLastD]
   by_cases h1 : t.mhp = noMaxHp <;> by_cases h2 : t.mhp < newHp <;> cases auto <;>
     by_cases h3 : lfOf t.size (t.capacity c) < t.mlf <;> by_cases h4 : t.hp = origHp <;>
     simp [h1, h2, h3, h4]
 
-/-- and when no guard fires the function returns `ok` and does nothing else -/
-theorem checkResize_then : checkResizeValidity_then = ["return ok"] ∧ checkResizeValidity_before = [] := by decide
-
-/-- the load-factor guard is STRICT and applies to automatic resizes only (C15: with a minimum of 0 it can never fire) -/
-theorem load_factor_guard_is_strict :
-    checkResizeValidity[1]? = some ([("AUTO_RESIZE::value", "", ""), ("load_factor()", "<", "minimum_load_factor()")], "throw load_factor_too_low") := by
-  decide
+/-- nothing is executed before the guards (other than initialisations of locals) -/
+theorem checkResize_nothing_before : checkResizeValidity_before = [] := by decide
 
 /-! ### the setters -/
 
